@@ -115,6 +115,9 @@ def run(ctx):
                        "detail": "%s in the sources, %s translated" % (table.get("lock_ops_in_source"), table.get("lock_ops_in_skeletons"))})
     for c in table["confinement"]:
         broken.append({"kind": "obligation", "name": "annotation side condition violated", "detail": c})
+    for c in [r for r in (table.get("reference_fields") or []) if r.endswith(": unclassified")][:20]:
+        broken.append({"kind": "obligation", "name": "a reference-typed field of a tracked struct is neither tracked, nor declared unsafe (pointee rows), nor declared safe by contract",
+                       "detail": c + " — classify its type in go/extract/accesses/access_annotations.json (unsafe_pointee_types / safe_pointee_types)"})
     for c in (table.get("copied_locks") or [])[:20]:
         broken.append({"kind": "obligation", "name": "lock operation on a by-value copy of a mutex (value receiver / struct parameter): it excludes nobody", "detail": c})
     table_sites = {(r["file"], r["line"]) for r in table["rows"]}
